@@ -65,6 +65,8 @@ type Case struct {
 	Q2 *Req  `json:"req2,omitempty"`
 	// multi-operation sweep (level "multiop"): the operations of one API, all declaring the
 	// same name in the same location, and the consecutive requests sent to one handler instance
+	// literal-grammar consistency: a text of the same class (same value, other padding) that was bound
+	Peer  *Txt   `json:"peer,omitempty"`
 	Ops   []Decl `json:"ops,omitempty"`
 	Steps []Step `json:"steps,omitempty"`
 }
